@@ -271,7 +271,8 @@ class WhipS(Scenario):
     name = "whip"
 
     def prepare(self, work, seed):
-        m, p = _plt(work, "plt_w", seed)
+        # three levels: a finer level has to wait for ALL coarser ones, not only for the one below it
+        m, p = _plt(work, "plt_w", seed, nlevels=3, bf=2, base_blocks=(2, 2), maxsz=4)
         return {"p": p}
 
     def run(self, ctx, out, serial=False):
